@@ -198,6 +198,60 @@ class Actor(object):
         return out
 
 
+class GcAt(object):
+    """Run the cyclic collector at the n-th traced source line of jsonschema code inside one operation.
+
+    The real collector may run at any allocation; with correct code a collection in the middle of a
+    validation changes nothing, so this 'fault' is always legal.  What it exposes: finalisers of
+    abandoned-but-uncollected iterators (pending scope pops) landing in the middle of a later operation.
+    """
+
+    def __init__(self, actor, n):
+        import os
+        import jsonschema
+        self.actor = actor
+        self.n = n
+        self.step = 0
+        self.pkg = os.path.dirname(os.path.abspath(jsonschema.__file__)) + os.sep
+        self.fired = False
+
+    def tracer(self, frame, event, arg):
+        if frame.f_code.co_filename.startswith(self.pkg):
+            return self.local
+        return None
+
+    def local(self, frame, event, arg):
+        if event == "line" and not self.fired:
+            self.step += 1
+            if self.step >= self.n:
+                self.fired = True
+                before = self.actor.depth()
+                gc.collect()
+                self.actor.probe("fault:gc_inside_operation")
+                if self.actor.depth() != before:
+                    self.actor.probe("gc_inside_operation_changed_scope_stack")
+        return self.local
+
+    def __enter__(self):
+        import sys
+        self.prev = sys.gettrace()
+        sys.settrace(self.tracer)
+        return self
+
+    def __exit__(self, *a):
+        import sys
+        sys.settrace(self.prev)
+        return False
+
+
+class _NoCtx(object):
+    def __enter__(self):
+        return self
+
+    def __exit__(self, *a):
+        return False
+
+
 class IterTask(object):
     """A live error iterator of one actor, steppable one next() at a time."""
 
@@ -270,88 +324,90 @@ def do_op(actor, op, instances):
         inst = copy.deepcopy(instances[op["inst"]])
         inst0 = fast(inst)
     out = None
+    ctx = GcAt(actor, op["gc_at"]) if op.get("gc_at") else _NoCtx()
     try:
-        if kind == "is_valid":
-            out = {"k": "bool", "v": bool(v.is_valid(inst))}
-        elif kind == "exhaust":
-            t = IterTask(actor, inst, v)
-            t.take(10 ** 6)
-            out = t.outcome()
-        elif kind == "validate":
-            v.validate(inst)
-            out = {"k": "none"}
-        elif kind in ("take_close", "take_drop", "take_cycle"):
-            t = IterTask(actor, inst, v)
-            t.take(op["k"])
-            d = actor.depth()
-            if t.suspended():
-                actor.probe("abandon_suspended")
-                if d >= 2:
-                    actor.probe("abandon_with_scopes_pushed")
-                if d >= 3:
-                    actor.probe("abandon_with_2plus_scopes_pushed")
-            if kind == "take_close":
-                t.close()
-            elif kind == "take_drop":
-                t.drop()
-            else:
-                if t.suspended():
-                    actor.pending_cycle = True
-                t.drop_cyclic()
-                if actor.pending_cycle and actor.depth() >= 2:
-                    actor.probe("cyclic_drop_left_scopes_pushed")
-            out = t.outcome()
-        elif kind == "gc":
-            before = actor.depth()
-            gc.collect()
-            if actor.pending_cycle and actor.depth() < before:
-                actor.probe("gc_finalised_iterator_and_popped")
-            actor.pending_cycle = False
-            out = {"k": "none"}
-        elif kind == "tree":
-            from jsonschema.exceptions import ErrorTree
-            tree = ErrorTree(v.iter_errors(inst))
-            out = {"k": "value", "v": tree.total_errors}
-        elif kind == "best_match":
-            from jsonschema.exceptions import best_match
-            e = best_match(v.iter_errors(inst))
-            out = {"k": "value", "v": None if e is None else canon_error(e)}
-            e = None
-        elif kind == "consumer_raises":
-            n = 0
-            for e in v.iter_errors(inst):
-                if n >= op["k"]:
-                    e = None
-                    if actor.depth() >= 2:
-                        actor.probe("consumer_died_with_scopes_pushed")
-                    raise ConsumerDied()
-                n += 1
-            out = {"k": "value", "v": n}
-        elif kind == "resolve":
-            url, resolved = r.resolve(op["ref"])
-            out = {"k": "value", "v": [url, typed(resolved)]}
-        elif kind == "resolve_from_url":
-            resolved = r.resolve_from_url(op["ref"])
-            out = {"k": "value", "v": typed(resolved)}
-        elif kind == "resolving":
-            with r.resolving(op["ref"]) as resolved:
-                inner = r.resolution_scope
-                res = typed(resolved)
-                if op.get("body_raises"):
-                    raise BodyRaised()
-            out = {"k": "value", "v": [inner, res]}
-        elif kind == "in_scope":
-            with r.in_scope(op["scope"]):
-                inner = r.resolution_scope
-                got = None
-                if op.get("ref") is not None:
-                    url, resolved = r.resolve(op["ref"])
-                    got = [url, typed(resolved)]
-                if op.get("body_raises"):
-                    raise BodyRaised()
-            out = {"k": "value", "v": [inner, got]}
-        else:
-            raise AssertionError("unknown op %r" % (kind,))
+      with ctx:
+          if kind == "is_valid":
+              out = {"k": "bool", "v": bool(v.is_valid(inst))}
+          elif kind == "exhaust":
+              t = IterTask(actor, inst, v)
+              t.take(10 ** 6)
+              out = t.outcome()
+          elif kind == "validate":
+              v.validate(inst)
+              out = {"k": "none"}
+          elif kind in ("take_close", "take_drop", "take_cycle"):
+              t = IterTask(actor, inst, v)
+              t.take(op["k"])
+              d = actor.depth()
+              if t.suspended():
+                  actor.probe("abandon_suspended")
+                  if d >= 2:
+                      actor.probe("abandon_with_scopes_pushed")
+                  if d >= 3:
+                      actor.probe("abandon_with_2plus_scopes_pushed")
+              if kind == "take_close":
+                  t.close()
+              elif kind == "take_drop":
+                  t.drop()
+              else:
+                  if t.suspended():
+                      actor.pending_cycle = True
+                  t.drop_cyclic()
+                  if actor.pending_cycle and actor.depth() >= 2:
+                      actor.probe("cyclic_drop_left_scopes_pushed")
+              out = t.outcome()
+          elif kind == "gc":
+              before = actor.depth()
+              gc.collect()
+              if actor.pending_cycle and actor.depth() < before:
+                  actor.probe("gc_finalised_iterator_and_popped")
+              actor.pending_cycle = False
+              out = {"k": "none"}
+          elif kind == "tree":
+              from jsonschema.exceptions import ErrorTree
+              tree = ErrorTree(v.iter_errors(inst))
+              out = {"k": "value", "v": tree.total_errors}
+          elif kind == "best_match":
+              from jsonschema.exceptions import best_match
+              e = best_match(v.iter_errors(inst))
+              out = {"k": "value", "v": None if e is None else canon_error(e)}
+              e = None
+          elif kind == "consumer_raises":
+              n = 0
+              for e in v.iter_errors(inst):
+                  if n >= op["k"]:
+                      e = None
+                      if actor.depth() >= 2:
+                          actor.probe("consumer_died_with_scopes_pushed")
+                      raise ConsumerDied()
+                  n += 1
+              out = {"k": "value", "v": n}
+          elif kind == "resolve":
+              url, resolved = r.resolve(op["ref"])
+              out = {"k": "value", "v": [url, typed(resolved)]}
+          elif kind == "resolve_from_url":
+              resolved = r.resolve_from_url(op["ref"])
+              out = {"k": "value", "v": typed(resolved)}
+          elif kind == "resolving":
+              with r.resolving(op["ref"]) as resolved:
+                  inner = r.resolution_scope
+                  res = typed(resolved)
+                  if op.get("body_raises"):
+                      raise BodyRaised()
+              out = {"k": "value", "v": [inner, res]}
+          elif kind == "in_scope":
+              with r.in_scope(op["scope"]):
+                  inner = r.resolution_scope
+                  got = None
+                  if op.get("ref") is not None:
+                      url, resolved = r.resolve(op["ref"])
+                      got = [url, typed(resolved)]
+                  if op.get("body_raises"):
+                      raise BodyRaised()
+              out = {"k": "value", "v": [inner, got]}
+          else:
+              raise AssertionError("unknown op %r" % (kind,))
     except (ConsumerDied, BodyRaised) as x:
         out = {"k": "raised", "exc": {"cls": type(x).__name__, "msg": ""}}
     except AssertionError:
